@@ -22,6 +22,8 @@ func init() {
 }
 
 func runC01(c *core.Ctx) {
+	c.Rule("CTEFRESH", "every reference to a common table expression gets fresh unique column names")
+	checkCTEFreshNames(c, "CTEFRESH")
 	c.Rule("MAPORDER", "no planner result depends on Go's map iteration order")
 	checkMapOrder(c, "MAPORDER", []string{"logical", "physical", "optimizer", "parser"})
 	c.Rule("TUPLE1", "a parsed value tuple stays a tuple for every length (x IN (e) is a one-element list)")
